@@ -2,6 +2,7 @@ package generator
 
 import (
 	"fmt"
+	"go/constant"
 	"go/types"
 	"regexp"
 	"sort"
@@ -146,6 +147,11 @@ func ReplaceEnums(ana *analysis.Analysis, content string) string {
 		typeName, varName, _ := strings.Cut(s, ".")
 		enum := ana.GetByName(typeName).(*analysis.Enum)
 		enumValue := enum.Get(varName)
-		return fmt.Sprintf("%s /* %s.%s */", enumValue.Const.Val().ExactString(), typeName, varName)
+		value := enumValue.Const.Val().ExactString()
+		if val := enumValue.Const.Val(); val.Kind() == constant.String {
+			// SQL string literals use single quotes (double quotes denote identifiers)
+			value = "'" + strings.ReplaceAll(constant.StringVal(val), "'", "''") + "'"
+		}
+		return fmt.Sprintf("%s /* %s.%s */", value, typeName, varName)
 	})
 }
